@@ -323,6 +323,103 @@ def run(report, p):
                                 r5.check(good, dh, sn.ast, f"the failure of this comparison is booked under `{norm(karg)}`, which is not the format of the entry that was compared: with several recorded formats the per-format count never reaches the exit condition", construct="failure booked under a format other than the compared entry's", witness="; ".join(show(o)[:120] for o in pr.origins(karg, dh)))
     if n_verdicts == 0:
         raise AnalysisError("no consumed verdict of the directory comparison helper found")
+
+    # ------------------------------------------------------------------ R9.6
+    r6 = report.rule(
+        "R9.6",
+        "decision table of the comparison helper: evaluated over the two facts (recorded content digest == recomputed, recorded structure digest == recomputed), every value it can "
+        "return when at least one differs is booked as a failure by every caller, and no value returned when both agree is; content is compared with content, structure with structure",
+        2,
+    )
+    from sa.absint import UNKNOWN, Evaluator, returns_of
+    from sa.flow import defs_of as _defs_of
+
+    dd = _defs_of(dh)
+    for hq in sorted(helpers):
+        h = p.funcs[hq]
+        # -- atoms: Eq / NotEq between a recorded digest field of the entry parameter and a recomputed-digest parameter
+        atoms = {}
+
+        def side_role(x):
+            if isinstance(x, ast.Attribute) and isinstance(x.value, ast.Name) and x.value.id in h.params and x.attr in ("hash_string", "structure_hash_string"):
+                return ("rec", x.attr)
+            if isinstance(x, ast.Name) and x.id in h.params:
+                return ("par", x.id)
+            return None
+
+        for n in walk_no_nested(h.node):
+            if isinstance(n, ast.Compare) and len(n.ops) == 1 and isinstance(n.ops[0], (ast.Eq, ast.NotEq)):
+                a, b = side_role(n.left), side_role(n.comparators[0])
+                if a and b and {a[0], b[0]} == {"rec", "par"}:
+                    rec, par = (a, b) if a[0] == "rec" else (b, a)
+                    atoms.setdefault(rec[1], set()).add(par[1])
+        if set(atoms) != {"hash_string", "structure_hash_string"} or any(len(v) != 1 for v in atoms.values()):
+            raise AnalysisError(f"{hq}: comparison helper does not compare exactly (hash_string, structure_hash_string) with one parameter each: {atoms}")
+        cpar, spar = next(iter(atoms["hash_string"])), next(iter(atoms["structure_hash_string"]))
+        r6.instance(h, h.node, f"{h.name}: hash_string ~ {cpar}, structure_hash_string ~ {spar}")
+        r6.check(cpar != spar, h, h.node, "recorded content and structure digests are compared with the same recomputed value", construct="both digests against one parameter")
+
+        def mk_atom(ceq, seq):
+            def atom(e, env):
+                if isinstance(e, ast.Compare) and len(e.ops) == 1 and isinstance(e.ops[0], (ast.Eq, ast.NotEq)):
+                    a, b = side_role(e.left), side_role(e.comparators[0])
+                    if a and b and {a[0], b[0]} == {"rec", "par"}:
+                        rec = a if a[0] == "rec" else b
+                        eq = ceq if rec[1] == "hash_string" else seq
+                        return eq if isinstance(e.ops[0], ast.Eq) else (not eq)
+                return None
+
+            return atom
+
+        table = {}
+        for ceq in (True, False):
+            for seq in (True, False):
+                vals = returns_of(h.node, mk_atom(ceq, seq), where=hq)
+                if any(v is UNKNOWN for v in vals):
+                    raise AnalysisError(f"{hq}: with content {'equal' if ceq else 'different'} / structure {'equal' if seq else 'different'} the helper returns a value that is not a constant of the two comparisons")
+                table[(ceq, seq)] = sorted(set(vals), key=repr)
+        report.extra.setdefault("comparison_decision_table", {})[hq] = {f"content_equal={c},structure_equal={s_}": v for (c, s_), v in table.items()}
+        # -- callers: which returned values are booked as failure
+        for call, tg in p.calls[dh.qual]:
+            if hq not in tg:
+                continue
+            st = _stmt(call)
+            if not (isinstance(st, ast.Assign) and len(st.targets) == 1 and isinstance(st.targets[0], ast.Name)):
+                continue
+            var = st.targets[0].id
+            cn = g.node_for(call)
+            r6.instance(dh, call, f"caller books {var}")
+            b = p.bind_args(h, call)
+            for par, want in ((cpar, "final_content_hash_str"), (spar, "final_structure_hash_str")):
+                arg = b.get(par)
+                os_ = [o for o in pr.origins(arg, dh) if not (o[0] == "const" and o[1] is None)] if arg is not None else []
+                good = bool(os_) and all(any(s2[0] == "call" and s2[1].endswith(want) for s2 in subterms(o)) for o in os_)
+                r6.check(good, dh, call, f"the value compared with the recorded {'content' if 'content' in want else 'structure'} digest (`{norm(arg) if arg is not None else '?'}`) is not the recomputed {'content' if 'content' in want else 'structure'} hash of the folder", construct=f"argument {par} is not {want}()")
+            tests = [t for t in g.nodes if t.kind == "test" and any(isinstance(x, ast.Name) and x.id == var for x in ast.walk(t.ast)) and any(d[1] == cn.id for d in dd.reaching(var, t))]
+            stops = {x.id for x in g.nodes if x.kind == "loop"} | {g.exit.id}
+
+            def booked(val):
+                ev = Evaluator()
+                for t in tests:
+                    names = {x.id for x in ast.walk(t.ast) if isinstance(x, ast.Name)}
+                    if names - {var}:
+                        continue
+                    tv = ev.eval(t.ast, {var: val})
+                    if tv is UNKNOWN:
+                        continue
+                    for m, l in t.succ:
+                        if l == ("T" if tv else "F") and (m.id in map_signal_nodes or (m.id not in stops and g.find_path(m, stops, avoid=map_signal_nodes) is None)):
+                            return True
+                return False
+
+            for (ceq, seq), vals in table.items():
+                for v in vals:
+                    bk = booked(v)
+                    what = f"content {'equal' if ceq else 'DIFFERENT'}, structure {'equal' if seq else 'DIFFERENT'}"
+                    if ceq and seq:
+                        r6.check(not bk, dh, call, f"with both digests equal the helper returns {v!r}, which this caller books as a failure: exit 12 on an unchanged tree", construct=f"{what} -> {v!r} booked as failure")
+                    else:
+                        r6.check(bk, h, h.node, f"with {what} the helper returns {v!r}, which the caller at {dh.loc(call)} does not book as a failure: a folder whose {'content' if not ceq else 'structure'} hash changed verifies", construct=f"{what} -> {v!r} not booked as failure")
     fde = p.funcs.get("ascmhl.history.MHLHistory.find_directory_hash_entries_for_path")
     if fde is None:
         raise AnalysisError("find_directory_hash_entries_for_path not found")
